@@ -55,7 +55,7 @@ func H09a() {
 		`container c { ` + h09Typedef(sCont, present[sCont], names[sCont]) + at(1) + `} ` +
 		`grouping g { ` + h09Typedef(sGrp, present[sGrp], names[sGrp]) + at(2) + `} container u { uses g; } ` +
 		`rpc r { input { ` + h09Typedef(sInput, present[sInput], names[sInput]) + at(3) + `} } }`
-	s := `submodule s { belongs-to m { prefix m; } ` + h09Typedef(sSTop, present[sSTop], names[sSTop]) + at(4) + `}`
+	s := `submodule s { belongs-to m { prefix m; } import x { prefix px; } ` + h09Typedef(sSTop, present[sSTop], names[sSTop]) + at(4) + `}`
 	x := `module x { namespace "urn:x"; prefix x; include xs; ` + h09Typedef(sXTop, present[sXTop], names[sXTop]) + `}`
 	xs := `submodule xs { belongs-to x { prefix x; } ` + h09Typedef(sXSTop, present[sXSTop], names[sXSTop]) + `}`
 	note(m + s + x + xs)
